@@ -1,6 +1,8 @@
 /-
 C12 — the inventory: the JSON view of the analysis result has sorted, duplicate-free lists, ids of the
-form `<owner id>/<name>`, resolvable references, and records the functions of the source with their flags.
+form `<owner id>/<name>` (all seven tables below the modules; attributes: `<id of a class of the result>/<name>`),
+resolvable references, and records the functions of the source with their flags.  The converse of the reference
+property (every attribute / parameter / result is listed by its owner) holds when no id is defined twice.
 -/
 import StubGen.Proofs.Inventory
 
@@ -31,8 +33,10 @@ theorem json_lists_sorted_nodup {env : AEnv} {root : GNode} {mods : List SrcModu
    k12_sortStrings_strict hn.results, k12_sortStrings_strict hn.enums, k12_sortStrings_strict hn.enumInstances,
    k12_sortStrings_strict hn.attributes, k12_sortStrings_strict hn.parameters⟩
 
-/-- 2. ids have the form `<owner id>/<name>`: classes, functions, enums and enum instances `<owner>/<name>`;
-    parameters and results `<id of a function of the result>/<name>` -/
+/-- 2. ids have the form `<owner id>/<name>`, for all seven tables below the modules: classes, functions, enums and
+    enum instances `<owner>/<name>`; parameters and results `<id of a function of the result>/<name>`;
+    attributes `<id of a class of the result>/<name>` (also for attributes assigned in a constructor: the owner is
+    the class, not `…/__init__`) -/
 theorem ids_have_owner_form {env : AEnv} {root : GNode} {mods : List SrcModule} {r : AnaResult} {warnings : List String}
     (h : analyze env root mods = .ok (r, warnings)) :
     (∀ x ∈ r.classes, ∃ owner, x.id = owner ++ "/" ++ x.name) ∧
@@ -40,30 +44,16 @@ theorem ids_have_owner_form {env : AEnv} {root : GNode} {mods : List SrcModule} 
     (∀ x ∈ r.enums, ∃ owner, x.id = owner ++ "/" ++ x.name) ∧
     (∀ x ∈ r.enumInstances, ∃ owner, x.id = owner ++ "/" ++ x.name) ∧
     (∀ p ∈ r.parameters, ∃ fn ∈ r.functions, p.id = fn.id ++ "/" ++ p.name) ∧
-    (∀ x ∈ r.results, ∃ fn ∈ r.functions, x.id = fn.id ++ "/" ++ x.name) :=
+    (∀ x ∈ r.results, ∃ fn ∈ r.functions, x.id = fn.id ++ "/" ++ x.name) ∧
+    (∀ a ∈ r.attributes, ∃ c ∈ r.classes, a.id = c.id ++ "/" ++ a.name) :=
   have hf := k12_analyze_forms h
-  ⟨hf.classes, hf.functions, hf.enums, hf.enumInstances, hf.parameters, hf.results⟩
+  ⟨fun x hx => (hf.classes x hx).1, fun x hx => (hf.functions x hx).1, hf.enums, hf.enumInstances, hf.parameters,
+   hf.results,
+   fun a ha => k12_AttrForm_nil (hf.attributes a ha)⟩
 
-/-- 2 (attributes, strongest true form). The id of an attribute is `<owner>/<name>` with every occurrence of the
-    text `__init__/` removed (`_create_attribute`: `.replace("__init__/", "")`).  The plain form
-    `<owner>/<name>` is FALSE in general, see `attribute_id_counterexample`. -/
-theorem ids_have_owner_form_attributes_partial {env : AEnv} {root : GNode} {mods : List SrcModule} {r : AnaResult}
-    {warnings : List String} (h : analyze env root mods = .ok (r, warnings)) :
-    ∀ a ∈ r.attributes, ∃ owner, a.id = pyReplace (owner ++ "/" ++ a.name) "__init__/" "" :=
-  (k12_analyze_forms h).attributes
-
-/-- 2 (attributes, sufficient condition). If the text `__init__/` does not occur in `<owner>/<name>` (attributes
-    assigned in the class body of classes whose path has no component ending in `__init__`), the id is `<owner>/<name>`. -/
-theorem ids_have_owner_form_attributes_noinit {env : AEnv} {root : GNode} {mods : List SrcModule} {r : AnaResult}
-    {warnings : List String} (h : analyze env root mods = .ok (r, warnings)) :
-    ∀ a ∈ r.attributes, ∃ owner, a.id = pyReplace (owner ++ "/" ++ a.name) "__init__/" "" ∧
-      (pyIn "__init__/" (owner ++ "/" ++ a.name) = false → a.id = owner ++ "/" ++ a.name) := by
-  intro a ha
-  obtain ⟨owner, ho⟩ := (k12_analyze_forms h).attributes a ha
-  exact ⟨owner, ho, fun hn => by rw [ho, k12_pyReplace_noop _ _ _ (by decide) hn]⟩
-
-/-! Counterexample to `∃ owner, a.id = owner ++ "/" ++ a.name` for attributes: a class whose name ends in
-`__init__` (`class my__init__: x: int = 1` in module `m`) gets the attribute id `m/myx`. -/
+/-! The class whose name ends in `__init__` (`class my__init__: x: int = 1` in module `m`): its attribute has the
+id `m/my__init__/x` (`<class id>/<name>`; before the repair of `_create_attribute` the text `__init__/` was removed
+from the id, giving `m/myx`). -/
 
 def cexEnv : AEnv := { opts := {}, aliases := [], infoBases := [] }
 def cexRoot : GNode := { name := "m" }
@@ -74,17 +64,13 @@ def cexMods : List SrcModule :=
       defs := [ .cls "my__init__" "m.my__init__" [] []
                   [ .assign { lvalues := [ .name "x" "m.my__init__.x" true (some cexVar) ], unanalyzedType := none } ] ] } ]
 
-/-- the analysis of `cexMods` records exactly one attribute: id `m/myx`, name `x` -/
-theorem attribute_id_counterexample :
+/-- the analysis of `cexMods` records exactly one class, `m/my__init__`, and exactly one attribute: id
+    `m/my__init__/x`, name `x`; the class lists that attribute -/
+theorem attribute_id_example :
     (match analyze cexEnv cexRoot cexMods with
-     | .ok (r, _) => r.attributes.map (fun (a : Attribute) => (a.id, a.name))
-     | .error _ => []) = [("m/myx", "x")] := by decide +kernel
-
-/-- … and `m/myx` is not of the form `<owner>/x` -/
-theorem attribute_id_counterexample_no_owner : ¬ ∃ owner : String, "m/myx" = owner ++ "/" ++ "x" := by
-  rintro ⟨o, h⟩
-  have := congrArg (fun s => s.toList.reverse) h
-  simp at this
+     | .ok (r, _) => some (r.attributes.map (fun (a : Attribute) => (a.id, a.name)),
+                           r.classes.map (fun (c : Class) => (c.id, c.attributes.map (·.id))))
+     | .error _ => none) = some ([("m/my__init__/x", "x")], [("m/my__init__", ["m/my__init__/x"])]) := by decide +kernel
 
 /-! Finding: an enum nested in a class is dropped by `leave_enumdef` (only module-level enums are stored), but its
 members stay in `enum_instances`: the instance `m/C/E/A` has no owner entry.  Hence "`i.id = e.id/<name>` for an
@@ -246,5 +232,93 @@ example :
      | .error _ => []) =
     [("pkg/mod/C/__init__", false, ["self", "x"]), ("pkg/mod/C/make", true, []), ("pkg/mod/f", false, ["a"])] := by
   decide +kernel
+
+/-! ### 6. the converse of `references_resolve`: is every entry of a table listed by its owner?
+
+NOT in general.  `table[id] = value` overwrites: when two classes (functions) get the same id, the table keeps the
+later one, but the attributes (parameters, results) of the earlier one stay in their tables.  Ids collide even in
+well-formed packages: the class `C` nested in class `b` of the package `a` and the class `C` of the module `a.b` both
+get the id `a/b/C`; the method `f` of class `b` and the function `f` of module `a.b` both get `a/b/f`. -/
+
+def dupVar (n : String) : VarInfo :=
+  { fullname := "a.b.C." ++ n, type := some intT, isInferred := true, explicitSelfType := false }
+def dupAssign (n : String) : Def :=
+  .assign { lvalues := [ .name n ("a.b.C." ++ n) true (some (dupVar n)) ], unanalyzedType := none }
+def dupF (p : String) (ret : MType) : FuncDef :=
+  { name := "f", fullname := "a.b.f", isStatic := false, isClass := false, isProperty := false,
+    args := [ { name := p, isSelf := false, isCls := false, kind := 0, posOnly := false,
+                varType := some intT, annotation := some (.unbound "int" []), init := none } ],
+    hasCallableType := true, retType := some ret, unanalyzedRet := none,
+    unanalyzedRetLiteralIsNone := false, body := [] }
+
+/-- `a/__init__.py`: `class b: (class C: x = 1); @deco def f(p) -> tuple[int, int]`;
+    `a/b.py`: `class C: y = 1`, `def f(q) -> int` -/
+def dupMods : List SrcModule :=
+  [ { path := "a/__init__.py", fullname := "a", name := "a", imports := [],
+      defs := [ .cls "b" "a.b" [] []
+                  [ .cls "C" "a.b.C" [] [] [ dupAssign "x" ], .decorator (dupF "p" (.tuple [intT, intT])) ] ] },
+    { path := "a/b.py", fullname := "a.b", name := "b", imports := [],
+      defs := [ .cls "C" "a.b.C" [] [] [ dupAssign "y" ], .func (dupF "q" intT) ] } ]
+
+/-- the tables of `dupMods`: ids of the attributes, and the classes with the attributes they list.  The analysis
+    succeeds without warnings.  The attribute `a/b/C/x` is listed by no class of the result:
+    `attributes_owner_listed` (`∀ a ∈ r.attributes, ∃ c ∈ r.classes, ∃ a' ∈ c.attributes, a'.id = a.id`) is FALSE. -/
+theorem attributes_owner_listed_counterexample :
+    (match analyze cexEnv { name := "a" } dupMods with
+     | .ok (r, w) =>
+       some (r.attributes.map (·.id), r.classes.map (fun (c : Class) => (c.id, c.attributes.map (·.id))), w)
+     | .error _ => none) =
+    some (["a/b/C/x", "a/b/C/y"], [("a/b/C", ["a/b/C/y"]), ("a/b", [])], []) := by decide +kernel
+
+/-- … ids of the parameters and results, and the functions (`[[id], listed parameters, listed results]`).
+    The parameter `a/b/f/p` and the result `a/b/f/result_2` are listed by no function of the result: the
+    analogues of `attributes_owner_listed` for parameters and results are FALSE. -/
+theorem parameters_owner_listed_counterexample :
+    (match analyze cexEnv { name := "a" } dupMods with
+     | .ok (r, _) =>
+       some (r.parameters.map (·.id), r.results.map (·.id),
+             r.functions.map (fun (f : Function) => [[f.id], f.params.map (·.id), f.results.map (·.id)]))
+     | .error _ => none) =
+    some (["a/b/f/p", "a/b/f/q"], ["a/b/f/result_1", "a/b/f/result_2"],
+          [[["a/b/f"], ["a/b/f/q"], ["a/b/f/result_1"]]]) := by decide +kernel
+
+/-- … the two definitions of `f` get the same id, and so do the two definitions of `C` -/
+example : (k12_srcFuncs dupMods).map (·.1) = ["a/b/f", "a/b/f"] ∧ k12_srcClasses dupMods = ["a/b/C", "a/b", "a/b/C"] := by
+  decide +kernel
+
+/-- 6a (without side condition): what a class of the table lists are attributes with that class's id as owner; what
+    a function of the table lists are parameters and results with that function's id as owner.  (They are in their
+    tables by `references_resolve`; every attribute / parameter / result of the tables has a class / function of the
+    table as owner BY ITS ID, see `ids_have_owner_form`.  What fails is only: that table entry may be a LATER
+    definition with the same id, which does not list it.) -/
+theorem listed_parts_have_owner_id {env : AEnv} {root : GNode} {mods : List SrcModule} {r : AnaResult}
+    {warnings : List String} (h : analyze env root mods = .ok (r, warnings)) :
+    (∀ c ∈ r.classes, ∀ a ∈ c.attributes, a.id = c.id ++ "/" ++ a.name) ∧
+    (∀ f ∈ r.functions, (∀ p ∈ f.params, p.id = f.id ++ "/" ++ p.name) ∧ (∀ x ∈ f.results, x.id = f.id ++ "/" ++ x.name)) :=
+  have hf := k12_analyze_forms h
+  ⟨fun c hc => (hf.classes c hc).2, fun f hfn => (hf.functions f hfn).2⟩
+
+/-- 6b (attributes, full converse under a side condition on the source).  `k12_srcClasses mods` lists the id of every
+    class definition the walker visits (non-enum classes at module level and nested in classes, at any depth), in
+    the order in which `leave_classdef` stores them.  If no two of them get the same id, every attribute of the
+    table is listed — as the very same record — by a class of the table. -/
+theorem attributes_owner_listed_partial {env : AEnv} {root : GNode} {mods : List SrcModule} {r : AnaResult}
+    {warnings : List String} (h : analyze env root mods = .ok (r, warnings))
+    (huniq : (k12_srcClasses mods).Nodup) :
+    ∀ a ∈ r.attributes, ∃ c ∈ r.classes, a ∈ c.attributes :=
+  k12_analyze_attrs h huniq
+
+/-- 6c (parameters and results, full converse under a side condition on the source).  If no two function
+    definitions the walker visits get the same id (`k12_srcFuncs`, see `flags_copied`), then every parameter and every
+    result of the tables is listed — as the very same record — by a function of the table. -/
+theorem parameters_owner_listed_partial {env : AEnv} {root : GNode} {mods : List SrcModule} {r : AnaResult}
+    {warnings : List String} (h : analyze env root mods = .ok (r, warnings))
+    (huniq : ((k12_srcFuncs mods).map (·.1)).Nodup) :
+    (∀ p ∈ r.parameters, ∃ f ∈ r.functions, p ∈ f.params) ∧ (∀ x ∈ r.results, ∃ f ∈ r.functions, x ∈ f.results) :=
+  k12_analyze_parts h huniq
+
+/-- 6b and 6c are not vacuous: the class ids and the function ids of `exMods` are pairwise different -/
+example : k12_srcClasses exMods = ["pkg/mod/C/Inner", "pkg/mod/C"] ∧ (k12_srcClasses exMods).Nodup ∧
+    ((k12_srcFuncs exMods).map (·.1)).Nodup := by decide +kernel
 
 end StubGen.C12
